@@ -79,7 +79,7 @@ func baseProfile() Profile {
 		ChRates:    []string{"1", "1", "0.5", "0.99", "1.01"},
 		ChInts:     []int64{0, sec, 300 * sec, day},
 		NAssetsMin: 1, NAssetsMax: 3,
-		Fracs:       []string{"0.0001", "0.01", "0.05", "0.333333333333333333", "0.5", "1"},
+		Fracs:       []string{"0.0001", "0.01", "0.05", "0.05", "0.1", "0.333333333333333333", "0.5", "0.5", "0.9", "1"},
 		HugeAmounts: true,
 		InvalidPct:  8,
 	}
